@@ -357,6 +357,10 @@ func c07Op(name string, g, mg int64) GOp {
 		return GOp{Kind: "Copy", Bucket: "b", Name: "x", DstBucket: "b2", DstName: "z"}
 	case "CPxto":
 		return GOp{Kind: "Copy", Bucket: "b2", Name: "y", DstBucket: "b", DstName: "x"}
+	case "Urz": // resumable sessions on OTHER objects, opened while another session is being opened
+		return GOp{Kind: "Upload", Proto: "resumable", Bucket: "b", Name: "z", Data: []byte("ZZZ"), Meta: gcs.ObjMeta{ContentType: "text/z", Md5Hash: gcs.MD5b64([]byte("ZZZ"))}}
+	case "Ury":
+		return GOp{Kind: "Upload", Proto: "resumable", Bucket: "b", Name: "y", Data: []byte("YYYYY"), Meta: gcs.ObjMeta{ContentType: "text/y2", Md5Hash: gcs.MD5b64([]byte("YYYYY"))}}
 	case "Cfromg": // the source is pinned to the generation it has before the threads start
 		return GOp{Kind: "Compose", Bucket: "b", Name: "z", Srcs: []GSrc{{Name: "x", Gen: gs}, {Name: "y"}}, Meta: gcs.ObjMeta{ContentType: "text/cz"}}
 	case "Cfrom":
@@ -556,6 +560,11 @@ func runC07(c *fw.Ctx) {
 			c07Param{Store: store, Present: true, Threads: [][]string{{"Ug", "R"}, {"Pm", "M"}}},
 			c07Param{Store: store, Present: true, Threads: [][]string{{"D", "U0"}, {"Ug", "M"}}},
 			c07Param{Store: store, Present: true, Threads: [][]string{{"Pfull"}, {"Pfull2"}}},
+			// upload sessions opened concurrently must stay apart (ids, buffers), whatever objects they are for
+			c07Param{Store: store, Present: true, Threads: [][]string{{"Ugr"}, {"Urz"}}},
+			c07Param{Store: store, Present: true, Threads: [][]string{{"Urz"}, {"Ury"}}},
+			c07Param{Store: store, Present: true, Threads: [][]string{{"Urz"}, {"Urz"}}},
+			c07Param{Store: store, Present: false, Threads: [][]string{{"Urz"}, {"Ury"}, {"U0"}}},
 			c07Param{Store: store, Present: true, Threads: [][]string{{"Pfull"}, {"Pm"}, {"M"}}},
 			// a compose / copy whose client goes away while it waits for (or holds) the locks
 			c07Param{Store: store, Present: true, Threads: [][]string{{"Ug"}, {"Cfrom@ctx"}, {"CancelCtx"}}},
